@@ -467,3 +467,52 @@ func ruleG19(r *Run) {
 		r.Undec("reflect boxing sites", 0, "no reflect.ValueOf(<interface{} value>) feeding a reflect.Value list found in rpc/core")
 	}
 }
+
+// G20 (C17): the rate limiter's time per permit is a fraction of a nanosecond for byte rates.
+func init() {
+	register("G20", "the rate limiter computes its time-per-permit in floating point: no division in rpc/plugins/limiter has integer operands (an integer division truncates the interval to whole nanoseconds, which admits up to twice the configured rate and stops limiting above 10^9 permits/s)", 1, ruleG20)
+}
+
+func ruleG20(r *Run) {
+	p := r.P
+	pkg := p.Pkg("rpc/plugins/limiter")
+	if pkg == nil {
+		r.Undec("package rpc/plugins/limiter", 0, "not found")
+		return
+	}
+	info := pkg.TypesInfo
+	n := 0
+	for _, file := range pkg.Syntax {
+		for _, d := range file.Decls {
+			fd, ok := d.(*ast.FuncDecl)
+			if !ok || fd.Body == nil {
+				continue
+			}
+			perFn := 0
+			ast.Inspect(fd.Body, func(m ast.Node) bool {
+				be, ok := m.(*ast.BinaryExpr)
+				if !ok || (be.Op != token.QUO && be.Op != token.REM) {
+					return true
+				}
+				tv, ok := info.Types[be]
+				if !ok {
+					return true
+				}
+				n++
+				perFn++
+				key := fmt.Sprintf("division %s in %s #%d", types.ExprString(be), p.DeclName(fd), perFn)
+				b, _ := tv.Type.Underlying().(*types.Basic)
+				isFloat := b != nil && b.Info()&types.IsFloat != 0
+				if tv.Value != nil {
+					r.Ok(key, be.Pos(), "constant expression")
+					return true
+				}
+				r.Check(isFloat, key, be.Pos(), "floating-point division", fmt.Sprintf("the division %s is carried out on %s operands: the time per permit is truncated to whole nanoseconds, so a rate that does not divide 10^9 is exceeded (700 MB/s: interval 1 ns instead of 1.43 ns, +43%%) and above 10^9 the interval is 0 and nothing is limited", types.ExprString(be), tv.Type))
+				return true
+			})
+		}
+	}
+	if n == 0 {
+		r.Undec("rate arithmetic", 0, "no division found in rpc/plugins/limiter")
+	}
+}
